@@ -7,7 +7,9 @@ Two kinds of cases (structural models, vp/gen/c15_pkgs.py):
   modules that are already imported: json, types, io, logging, sys, os); modules whose `__all__` is built from the `__all__` of a module static analysis may
   not be able to load (compiled decoy, source-less / zipped / not loaded package); sub-modules written in PEP 263 encodings (latin-1,
   cp1252 with a coding cookie and non-ASCII bytes — legal Python, not UTF-8 — and UTF-8 with BOM);
-  stubs (.pyi siblings, "<name>-stubs" packages); a site-style .pth file with an `import` line; packages that are only
+  stubs (.pyi siblings, "<name>-stubs" packages); a site-style .pth file with an `import` line (also one naming
+  a setuptools-style `__editable__*_finder.py` with a computed MAPPING and side effects in its assignments); compiled-only
+  top-level modules that merely share the name of a standard-library module (this, nntplib, ...); packages that are only
   reachable as alias targets (one of them the private sibling "_<name>" that resolve_external=None loads), possibly only
   importable (source-less .pyc) and invisible to the finder. Loaded with allow_inspection=False, force_inspection=False
   and every other option drawn freely, by name / by path / through sys.path. A sampled sixth of these cases goes through the
@@ -113,6 +115,8 @@ def _plan(case, r, roots):
     how = case["how"]
     objspec: object = top
     source_layout = layout in ("pkg", "mod", "ns")
+    if top in G.STD_NAMES:
+        how = "name"  # explicit search paths only: through sys.path the finder would (rightly) find the real stdlib sources
     if target in ("missing", "missing_dotted"):
         objspec = r["missing"] + (".sub.C" if target == "missing_dotted" else "")
         how = "name" if how not in ("name", "syspath") else how
@@ -433,7 +437,9 @@ def describe(case):
         if any(p.get("sibling") for p in case["pkgs"][1:]):
             classes.append(f"{kind}:private-sibling")
     if case.get("pth"):
-        classes.append("static:pth")
+        classes.append(f"{kind}:pth" + (":editable-finder-module" if case["pth"] == "editable" else ""))
+    if pkg0["layout"] in ("pyc", "so") and G.STD_NAMES[pkg0.get("stdname", 0) % len(G.STD_NAMES)]:
+        classes.append(f"{kind}:compiled-only-top-level-named-like-stdlib-module")
     nmods = info.get("n_modules", 0)
     if kind == "static":
         nontrivial = nmods >= 3 and o["resolve_aliases"]
